@@ -131,7 +131,14 @@ impl Property for C01 {
             "rowan's SyntaxToken::text()/text_range() are trusted as the observation of the tree".into(),
         ]
     }
+    fn fuzz(&self) -> Option<crate::FuzzSpec> {
+        Some(crate::FuzzSpec { label: "c01-damage", max_len: 96, runs: 50000 })
+    }
     fn run(&self, ctx: &mut Ctx) {
+        'enumerations: {
+        if ctx.fuzzing() {
+            break 'enumerations;
+        }
         let mut local: HashSet<u64> = HashSet::new();
         let full: Vec<&str> = FULL.iter().map(|t| t.text).collect();
         let mut visit = |ctx: &mut Ctx, text: &str, label: &str, local: &mut HashSet<u64>| {
@@ -152,6 +159,7 @@ impl Property for C01 {
             enumerate(ctx, REDUCED, 4, &label, &mut |ctx, text| visit(ctx, text, &label, &mut local));
         }
         ctx.stats.nt_disjoint += local.len() as u64;
+        }
         // corpus damage + random text via proptest streams
         let corpus = corpus();
         let cases = ctx.tier.pick(40_000, 800_000);
